@@ -2,10 +2,12 @@ package main
 
 import (
 	"fmt"
+	"strings"
 	"sync"
 	"sync/atomic"
 
 	"github.com/cockroachdb/errors"
+	"github.com/cockroachdb/redact"
 )
 
 // C18: read-only use of a shared error value from many goroutines.  The binary is built
@@ -20,7 +22,21 @@ type observer struct {
 
 var observers = []observer{
 	{"format", func(e error, _ []error) string { return fmtSX(e).String() }},
-	{"verbs", func(e error, _ []error) string { return verbsSX(e).String() }},
+	{"verbs", func(e error, _ []error) string {
+		// every directive except %#v (a Go-syntax dump prints addresses, which differ between
+		// the shared value and its twin)
+		var sb strings.Builder
+		for _, f := range verbSpecs {
+			if f == "%#v" {
+				continue
+			}
+			sb.WriteString(fmt.Sprintf(f, errors.Formattable(e)))
+			sb.WriteByte(0)
+			sb.WriteString(string(redact.Sprintf(f, e)))
+			sb.WriteByte(0)
+		}
+		return sb.String()
+	}},
 	{"encode", func(e error, _ []error) string { return encSX(e).String() }},
 	{"wire-bytes", func(e error, _ []error) string {
 		enc := errors.EncodeError(bgCtx, e)
@@ -59,24 +75,61 @@ func runC18(res *Result, tier string, seed uint64) {
 			recs = append(recs, multiRecipe(g))
 		}
 	}
-	res.Cases = 0
-	for i, rec := range recs {
-		e0, bp := Build(rec)
-		if bp != nil || e0 == nil {
+	// half of the trees get a layer of every annotation kind with several entries in a
+	// non-canonical order (keys, tags, hints, details, links, safe details): state that an
+	// observer might be tempted to normalise or cache in place
+	for i := range recs {
+		if i%2 == 1 {
 			continue
 		}
-		var shared []struct {
-			stage string
-			e     error
-		}
-		for _, st := range stages(e0, true) {
-			if st.Name == "hop3" || st.Name == "unknowing+1" {
-				continue
+		r := recs[i]
+		r = g.node("telemetry", []string{"zeta.key", "alpha.key", "mid.key", "alpha.key"}, nil, r)
+		r = g.node("tags", []string{"zz", "v1", "aa", "v2", "mm", "v3"}, []int{0, 1, 2}, r)
+		r = g.node("hint", []string{"hint b"}, nil, g.node("hint", []string{"hint a"}, nil, g.node("hint", []string{"hint b"}, nil, r)))
+		r = g.node("detail", []string{"detail z"}, nil, g.node("detail", []string{"detail a"}, nil, r))
+		r = g.node("issuelink", []string{"https://z", "zz"}, nil, g.node("issuelink", []string{"https://a", "aa"}, nil, r))
+		r = g.node("safedetails", []string{"z %s"}, nil, r)
+		a := "arg"
+		r.Arg = &a
+		r = g.node("domain", []string{"dom z"}, nil, g.node("domain", []string{"dom a"}, nil, r))
+		recs[i] = g.node("withstack", nil, nil, r)
+	}
+	res.Cases = 0
+	for i, rec := range recs {
+		// three equal values built through the same call site (same stack traces): `eShared`
+		// is never observed before the goroutines start, `eSolo` gives the results of each
+		// call executed alone, `eSrc` is the source of the decoded stages
+		var tw [3]error
+		var bp *buildPanic
+		for k := range tw {
+			tw[k], bp = Build(rec)
+			if bp != nil {
+				break
 			}
-			shared = append(shared, struct {
-				stage string
-				e     error
-			}{st.Name, st.E})
+		}
+		eShared, eSolo, e0 := tw[0], tw[1], tw[2]
+		if bp != nil || e0 == nil || eShared == nil || eSolo == nil {
+			continue
+		}
+		type sharedVal struct {
+			stage   string
+			e, solo error
+		}
+		shared := []sharedVal{{"local", eShared, eSolo}}
+		for _, st := range stages(e0, true) {
+			if st.Name == "hop1" || st.Name == "unknowing" {
+				// a decoded value is a fresh object graph: decode twice for an untouched shared copy
+				var twin error
+				if ok, _ := catch(func() {
+					if st.Name == "hop1" {
+						twin = hopReal(e0, nil)
+					} else {
+						twin = hopReal(e0, allFamilies)
+					}
+				}); ok && twin != nil {
+					shared = append(shared, sharedVal{st.Name, twin, st.E})
+				}
+			}
 		}
 		refs := []error{}
 		for _, r := range sentinelRefs(g) {
@@ -85,6 +138,7 @@ func runC18(res *Result, tier string, seed uint64) {
 			}
 		}
 		refs = append(refs, e0)
+		_ = errors.UnwrapOnce
 		for _, sh := range shared {
 			res.Cases++
 			res.DepthHist[fmt.Sprint(rec.Depth())]++
@@ -98,7 +152,7 @@ func runC18(res *Result, tier string, seed uint64) {
 							solo[k] = fmt.Sprint("panic: ", v)
 						}
 					}()
-					solo[k] = ob.F(sh.e, refs)
+					solo[k] = ob.F(sh.solo, refs)
 				}()
 			}
 			var wg sync.WaitGroup
